@@ -114,7 +114,7 @@ struct Range
 {
   float lo, hi;
 };
-static const Range RANGES[] = {{0.f, 1.f}, {-1.f, 1.f}, {-3.f, -1.f}, {-1e38f, 1e38f}, {16777216.f, 16777218.f}, {5.f, 5.f}};
+static const Range RANGES[] = {{0.f, 1.f}, {-3.f, -1.f}, {-1.f, 1.f}, {-1e38f, 1e38f}, {16777216.f, 16777218.f}, {5.f, 5.f}};  // quick: the first two (an asymmetric one on purpose)
 static const int NRANGES_QUICK = 2, NRANGES_THOROUGH = 6;
 static int g_nranges = NRANGES_QUICK;
 static double g_range_tol[NRANGES_THOROUGH];
@@ -574,8 +574,10 @@ int main(int argc, char **argv)
   if (nthreads == 0 || nthreads > 16)
     nthreads = 16;
   // diagnosis aids (timing, mutation experiments): restrict the run to some sweeps / kernels; the report then says so
-  if (getenv("C07_PARTS"))
+  if (getenv("C07_PARTS")) {
     g_parts = atoi(getenv("C07_PARTS"));
+    vr::capped("restricted by C07_PARTS: not every sweep was run");
+  }
   if (getenv("C07_FNMASK"))
     g_fnmask = (unsigned)strtoul(getenv("C07_FNMASK"), nullptr, 0);
   for (int i = 1; i < argc; i++)
